@@ -621,6 +621,28 @@ func (c *Ctx) okAt(v ssa.Value, b *ssa.BasicBlock) bool {
 			continue
 		}
 		cond := c.resolve(f.Cond)
+		// lockstep phis of a comma-ok loop (`for x, ok := a.(T); ok; x, ok = b.(T)`): the value phi and the ok phi
+		// sit in the same block and take, edge by edge, the two results of the same assertion
+		if pk, ok := cond.(*ssa.Phi); ok && f.Pos {
+			if pv, ok := v.(*ssa.Phi); ok && pv.Block() == pk.Block() && len(pv.Edges) == len(pk.Edges) {
+				lock := len(pv.Edges) > 0
+				for i := range pv.Edges {
+					e0, ok0 := pv.Edges[i].(*ssa.Extract)
+					e1, ok1 := pk.Edges[i].(*ssa.Extract)
+					if !ok0 || !ok1 || e0.Tuple != e1.Tuple || e0.Index != 0 || e1.Index != 1 {
+						lock = false
+						break
+					}
+					if _, isTA := e0.Tuple.(*ssa.TypeAssert); !isTA {
+						lock = false
+						break
+					}
+				}
+				if lock {
+					return true
+				}
+			}
+		}
 		if e1, ok := cond.(*ssa.Extract); ok && e1.Index == 1 && f.Pos {
 			if e0, ok := v.(*ssa.Extract); ok && e0.Tuple == e1.Tuple && e0.Index == 0 {
 				if _, isTA := e1.Tuple.(*ssa.TypeAssert); isTA {
@@ -765,6 +787,26 @@ func (c *Ctx) npNil(s npSite, fx *Facts) npResult {
 			ro := c.resolve(other)
 			if ro == rp || (c.term(ro) == tp && !c.factClobbered(f, s.in, fx)) {
 				return npResult{ok: true, by: "dominating test " + trunc(tp, 80) + " != nil"}
+			}
+		case *ssa.Phi:
+			// lockstep phis of a comma-ok loop: see okAt
+			if pv, ok := rp.(*ssa.Phi); ok && pos && pv.Block() == x.Block() && len(pv.Edges) == len(x.Edges) && len(x.Edges) > 0 {
+				lock := true
+				for i := range pv.Edges {
+					e0, ok0 := pv.Edges[i].(*ssa.Extract)
+					e1, ok1 := x.Edges[i].(*ssa.Extract)
+					if !ok0 || !ok1 || e0.Tuple != e1.Tuple || e0.Index != 0 || e1.Index != 1 {
+						lock = false
+						break
+					}
+					if _, isTA := e0.Tuple.(*ssa.TypeAssert); !isTA {
+						lock = false
+						break
+					}
+				}
+				if lock {
+					return npResult{ok: true, by: "dominating test of the ok flag that is carried in lockstep with this value (both results of the same comma-ok assertion on every edge)"}
+				}
 			}
 		case *ssa.Extract:
 			// `v, ok := m[k]` / `x.(T)`: ok true ⇒ … (map lookup ok does not imply non-nil value; type assertion ok does)
